@@ -16,8 +16,102 @@ from .common import CONTEXT, build_cfg, make_fallible
 LOGQ = 'self._logger_queue_'
 
 
+def check_flag_reader(ck: Checker, rid: str, rl, flag: str, qname: str):
+    """A log reader that stops on a "child has ended" flag instead of an end marker loses nothing only if it stops on
+    this evidence: the flag was read *before* a look at the queue, that look found the queue empty, and the value read
+    was true.  (The child flushes its records before it exits and the flag is set after the exit: what was in flight is
+    in the pipe before the flag reads true.)  Read after the look, a record that arrives between the look and the read
+    is never handled; leaving the loop without an empty look drops whatever is queued."""
+    ck.need(flag and qname, f'{rl.key}: flag / queue parameter of the log reader not identified')
+    sc = Scope(rl)
+
+    def extra(node, a):
+        return {'Empty'} if any(method_of(c)[1] in ('get', 'get_nowait') and is_name(method_of(c)[0], qname) for c in calls_in(a)) else set()
+
+    cfg = build_cfg(rl, ck.repo, make_fallible(sc, iters=set(), calls=set(), extra=extra))
+    ck.analysed_func(rl, cfg)
+    gets = [n for n in cfg.nodes if header_expr(n) is not None and any(method_of(c)[1] in ('get', 'get_nowait') and is_name(method_of(c)[0], qname) for c in calls_in(header_expr(n)))]
+    loops = [n for n in cfg.nodes if n.kind == 'test' and n.extra.get('loop') and gets and n.id in gets[0].loops]
+    ck.need(gets and loops, f'{rl.key}: reader loop not found')
+    loop = loops[-1]
+    outside = {k.id for k in cfg.nodes if loop.id not in k.loops and k.id != loop.id and k.id != cfg.exit_raise}
+    empty_edges = {(e.src, e.dst) for g_ in gets for e in cfg.succ[g_.id] if e.kind == 'exc' and 'Empty' in (e.data or ())}
+    probs = []
+    untimed = [g_ for g_ in gets if not any((kwarg(c, 'timeout') is not None or kwarg(c, 'block') is not None or len(c.args) >= 1 or method_of(c)[1] == 'get_nowait') for c in calls_in(header_expr(g_)) if method_of(c)[1] in ('get', 'get_nowait'))]
+    if untimed:
+        probs.append(f'L{untimed[0].lineno}: the reader waits on the queue without a timeout: it never gets to look at the flag once the child has gone quiet')
+    # (1) the loop is left only after a look that found the queue empty
+    p = path_avoiding(cfg, [e for e in cfg.succ[loop.id] if e.kind == 'T'], outside, edge_ok=lambda e: (e.src, e.dst) not in empty_edges and not (e.is_exc and loop.id not in cfg.nodes[e.dst].loops))
+    if p is not None:
+        probs.append(f'the reader can stop (via L{[cfg.nodes[k].lineno for k in p][-2:]}) without a look at the queue that found it empty: records still queued are never handled')
+    # (2) the decision to stop rests on a flag value read before that look
+    reads = [n for n in cfg.nodes if n.kind == 'stmt' and isinstance(n.ast, ast.Assign) and len(n.ast.targets) == 1 and isinstance(n.ast.targets[0], ast.Name) and isinstance(n.ast.value, ast.Call) and method_of(n.ast.value)[1] == 'is_set' and is_name(method_of(n.ast.value)[0], flag)]
+    locals_ = {n.ast.targets[0].id for n in reads}
+    exit_tests = []
+    for t in cfg.nodes:
+        if t.kind == 'test' and loop.id in t.loops and not t.extra.get('loop'):
+            for lab in ('T', 'F'):
+                es = [e for e in cfg.succ[t.id] if e.kind == lab]
+                if es and path_avoiding(cfg, es, outside, avoid={loop.id} | {g_.id for g_ in gets}) is not None:
+                    exit_tests.append((t, lab))
+    for t, lab in exit_tests:
+        direct = [c for c in ast.walk(t.ast) if isinstance(c, ast.Call) and method_of(c)[1] == 'is_set' and is_name(method_of(c)[0], flag)]
+        names = {x.id for x in ast.walk(t.ast) if isinstance(x, ast.Name)} & locals_
+        if direct:
+            probs.append(f'L{t.lineno}: `{norm_text(t.ast)}` reads the flag after the look at the queue: a record that arrives between the empty look and this read (the child\'s last records, flushed just before it exits) is never handled')
+        elif names:
+            v = sorted(names)[0]
+            pos = t.ast
+            neg = False
+            while isinstance(pos, ast.UnaryOp) and isinstance(pos.op, ast.Not):
+                pos, neg = pos.operand, not neg
+            if not (isinstance(pos, ast.Name) and ((lab == 'T') != neg)):
+                probs.append(f'L{t.lineno}: the reader stops when `{norm_text(t.ast)}` is {lab == "T"}: not "the flag read true"')
+            rd = [n for n in reads if n.ast.targets[0].id == v]
+            for g_ in gets:
+                if path_avoiding(cfg, [e for e in cfg.succ[loop.id] if e.kind == 'T'], {g_.id}, avoid={n.id for n in rd}) is not None:
+                    probs.append(f'the flag value `{v}` tested at L{t.lineno} is not read before the look at the queue (L{g_.lineno}) in every pass')
+                if any(path_avoiding(cfg, [e for e in cfg.succ[g_.id]], {n.id}, avoid={loop.id}) is not None and path_avoiding(cfg, cfg.normal_succ(n.id), {t.id}, avoid={loop.id}) is not None for n in rd):
+                    probs.append(f'the flag value `{v}` is read again between the look at the queue and the test at L{t.lineno}')
+        else:
+            probs.append(f'L{t.lineno}: the reader stops on `{norm_text(t.ast)}`, which is not the child-ended flag')
+    if not exit_tests and p is None:
+        probs.append('the reader loop has no way to stop')
+    ck.ob(rid, rl, loop.ast if loop.ast is not None else (loop.lineno, 'reader loop'), not probs, '; '.join(sorted(set(probs))) if probs else f'the log reader stops only when `{flag}` had been read true before a look at the queue that found it empty: every record the child flushed before exiting has been handled')
+
+
+def check_parent_never_puts(ck: Checker, rid: str, cls, spawn_bind=None):
+    """When a process exits, multiprocessing first runs the exit finalisers of priority >= 0 and only then joins the
+    process's children.  A multiprocessing queue that this process has ever put to owns such a finaliser (registered when
+    the first put starts the feeder thread): it closes the queue -- both ends.  So a process that has put anything on the
+    log queue of one of its children closes that queue *before* joining the child: the reader thread dies, nobody reads
+    the child's records, the child blocks flushing its log at exit, the parent blocks joining it.  (Nested processes:
+    a child that starts a grandchild and returns without joining it.)  The log queue is therefore written by the child
+    only."""
+    writers = []
+    for m_ in cls.methods():
+        if m_.name in ('run', '_finalize'):
+            continue  # the child side; the object finaliser (runs when the helper threads, hence the child, have ended)
+        scm = Scope(m_, spawn_bind.get(m_.key) if spawn_bind else None)
+        puts = [c_ for c_ in walk_shallow_func(m_.node) if isinstance(c_, ast.Call) and method_of(c_)[1] in ('put', 'put_nowait') and method_of(c_)[0] is not None and scm.canon(method_of(c_)[0]) == LOGQ]
+        if not puts:
+            continue
+        cfg = build_cfg(m_, ck.repo, None)
+        dead = {}
+        for n in cfg.nodes:
+            if n.kind == 'test' and isinstance(n.ast, ast.Compare) and dotted(n.ast.left) == 'self.exitcode' and is_none(n.ast.comparators[0]):
+                dead[n.id] = 'F' if isinstance(n.ast.ops[0], ast.Is) else 'T'
+        obs = {n.id for n in cfg.nodes if header_expr(n) is not None and any((method_of(c)[1] == 'join' and isinstance(method_of(c)[0], ast.Call) and dotted(method_of(c)[0].func) == 'super' and not c.args and not c.keywords) or ((dotted(c.func) or '').endswith('connection.wait') and len(c.args) == 1 and not c.keywords) for c in calls_in(header_expr(n)))}
+        for c_ in puts:
+            pn = [n for n in cfg.nodes if header_expr(n) is not None and any(c is c_ for c in calls_in(header_expr(n)))]
+            if pn and path_avoiding(cfg, [cfg.entry], {pn[0].id}, avoid=obs, edge_ok=lambda e: not (e.src in dead and e.kind == dead[e.src])) is not None:
+                writers.append((m_, c_))
+    st = cls.method('start')
+    ck.ob(rid, writers[0][0] if writers else st, writers[0][1] if writers else (st.node.lineno, 'parent-side puts on the log queue'), not writers, 'no method that runs in the parent puts anything on the log queue while the child may be alive: the parent owns no exit finaliser that would close the queue under a living child' if not writers else f'{writers[0][0].qualname} L{writers[0][1].lineno}: `{norm_text(writers[0][1])[:60]}` — the parent puts on its child\'s log queue; the first put registers an exit finaliser (priority 10) that closes the queue when this process exits, which happens before it joins its children: a child that is still logging then (a grandchild of a process whose target has returned) can never flush its records and never exits, and neither does this process')
+
+
 def run(ck: Checker):
-    ck.rule('C20-1', 'the end marker of the parent log reader follows the last record: the parent enqueues None only on paths that have observed the child dead (or the child does, after removing its handler) (PRECEDE+WHO)')
+    ck.rule('C20-1', 'the parent log reader ends after the last record: its end signal (a None put on the queue, or a child-has-ended flag) is given only on paths that have observed the child dead; a reader that stops on a flag does so only when the flag had been read true before a look at the queue that found it empty (PRECEDE+WHO+MUSTPASS)')
     ck.rule('C20-2', 'the queue handler brackets the target: installed before the target runs, removed and the queue closed on every exit; failures are reported before the result is sent (MUSTPASS)', minimum=3)
     ck.rule('C20-3', 'single reader: only the logger thread reads the log queue; exactly one logger thread is started on every path of start(); records are gated only by level; the log queue is unbounded and its reader is not a forced daemon (WHO)', minimum=5)
     cls = ck.repo.cls(CONTEXT, 'SpawnProcess')
@@ -32,11 +126,20 @@ def run(ck: Checker):
         for sp in spawn_sites(owner):
             if sp.target is not None:
                 spawn_bind.setdefault(sp.target.key, {}).update(binding_names(sp, osc))
+    # the "child has ended" flag, if the design uses one: an Event made in start() and handed to the logger thread
+    st0 = cls.method('start')
+    ev_attrs = {dotted(n.targets[0]) for n in walk_shallow_func(st0.node) if isinstance(n, ast.Assign) and len(n.targets) == 1 and isinstance(n.value, ast.Call) and (dotted(n.value.func) or '').split('.')[-1] == 'Event' and dotted(n.targets[0])}
+    rl0 = cls.method('_run_logger')
+    rl_bind = spawn_bind.get(rl0.key, {})
+    flag_attr = next((v for v in (dotted(e) if not isinstance(e, str) else e for e in rl_bind.values()) if v in ev_attrs), None)
+    flag_param = next((k for k, e in rl_bind.items() if (dotted(e) if not isinstance(e, str) else e) == flag_attr), None) if flag_attr else None
     for f in cls.methods():
         if f.name in ('_finalize',):
             continue  # object finaliser: the process object is going away
         sc = Scope(f, spawn_bind.get(f.key))
         puts = [n for n in walk_shallow_func(f.node) if isinstance(n, ast.Call) and method_of(n)[1] == 'put' and method_of(n)[0] is not None and sc.canon(method_of(n)[0]) == LOGQ and n.args and is_none(n.args[0])]
+        if flag_attr:
+            puts += [n for n in walk_shallow_func(f.node) if isinstance(n, ast.Call) and method_of(n)[1] == 'set' and method_of(n)[0] is not None and sc.canon(method_of(n)[0]) == flag_attr]
         if not puts:
             continue
 
@@ -57,8 +160,10 @@ def run(ck: Checker):
         for p_ in pn:
             n1 += 1
             path = path_avoiding(cfg, [cfg.entry], {p_.id}, avoid=joins, edge_ok=lambda e: not (e.src in dead and e.kind == dead[e.src]))
-            ck.ob('C20-1', f, p_.ast, path is None, 'the end marker is enqueued only after the child was observed dead: its queue feeder has flushed every record by then' if path is None else 'the parent ends its log reader while the child may still be flushing records: the last records are never handled, and a child with more unflushed log data than the pipe holds cannot exit (join hangs)', path=fmt_path(cfg, path) if path else '')
-    ck.need(n1 >= 1, 'no parent-side end-marker put on the log queue found')
+            ck.ob('C20-1', f, p_.ast, path is None, 'the end signal of the log reader is given only after the child was observed dead: its queue feeder has flushed every record by then' if path is None else 'the parent ends its log reader while the child may still be flushing records: the last records are never handled, and a child with more unflushed log data than the pipe holds cannot exit (join hangs)', path=fmt_path(cfg, path) if path else '')
+    ck.need(n1 >= 1, 'no parent-side end signal of the log reader (end-marker put / child-ended flag) found')
+    if flag_attr:
+        check_flag_reader(ck, 'C20-1', rl0, flag_param, next((k for k, e in rl_bind.items() if (dotted(e) if not isinstance(e, str) else e) == LOGQ), None))
     # ------------------------------------------------------------------ C20-2
     f = cls.method('run')
     sc = Scope(f)
@@ -167,7 +272,8 @@ def run(ck: Checker):
         probs.append('record handling loop not found')
     else:
         # tests between the get and the handle: exactly the end-marker test and the level gate
-        between = reachable(rcfg, [gets[0].id]) & reachable(rcfg, [handle[0].id], forward=False)
+        same_pass = lambda e: not e.is_exc and (e.src, e.dst) not in rcfg.back_edges
+        between = reachable(rcfg, [gets[0].id], edge_ok=same_pass) & reachable(rcfg, [handle[0].id], forward=False, edge_ok=same_pass)
         tests = [rcfg.nodes[k] for k in between if rcfg.nodes[k].kind == 'test' and not rcfg.nodes[k].extra.get('loop')]
         other = [t for t in tests if not (isinstance(t.ast, ast.Compare) and ((isinstance(t.ast.ops[0], ast.Is) and is_none(t.ast.comparators[0])) or 'levelno' in norm_text(t.ast)))]
         # a marker the parent itself enqueues (module-level constant put on the log queue by a method of the class) is
@@ -249,4 +355,6 @@ def run(ck: Checker):
                 qd = dotted(method_of(c_)[0])
                 if qd and qd.startswith('self.') and 'queue' in qd.lower() and qd not in start_puts:
                     probs.append(f'{h.qualname} L{c_.lineno}: `{norm_text(c_)}` is the parent\'s first put on that multiprocessing queue (start() makes none): it has to start the queue\'s feeder thread, which fails during interpreter shutdown — a child that outlives the main thread leaves the logger thread without its end marker, the parent never exits')
-    ck.ob('C20-5', st, (st.node.lineno, 'late creations'), not probs, '; '.join(sorted(set(probs))) if probs else f'{len(helpers)} helper threads, all started in start(); the log queue has had its first put in start()')
+    ck.rule('C20-6', 'while the child may be alive the log queue is written by the child only: a put by the parent registers an exit finaliser that closes the queue when the parent process exits, before it joins children that are still logging (nested processes hang) (WHO)')
+    check_parent_never_puts(ck, 'C20-6', cls, spawn_bind)
+    ck.ob('C20-5', st, (st.node.lineno, 'late creations'), not probs, '; '.join(sorted(set(probs))) if probs else f'{len(helpers)} helper threads, all started in start(); no helper thread makes a first put on a multiprocessing queue')
